@@ -1289,4 +1289,69 @@ func RuleCH1(c *Ctx) {
 	if n == 0 {
 		sc.Holds("children", "-", fmt.Sprintf("%d index expressions into Directive.Children, none with a constant position", idx))
 	}
+	// a child is a direct child: a function that answers "the child of kind K" (it ranges
+	// over X.Children and returns the element whose Type() equals a constant) does not call
+	// itself on the children - a descendant of a sibling is not the directive's own child
+	enumT := c.Named("directive", "Enumeration")
+	c.P.Funcs(func(pk *pkgT, fd *ast.FuncDecl) {
+		info := pk.TypesInfo
+		self, _ := info.Defs[fd.Name].(*types.Func)
+		if self == nil || enumT == nil {
+			return
+		}
+		lookup := false
+		var rec ast.Node
+		ast.Inspect(fd.Body, func(x ast.Node) bool {
+			rs, ok := x.(*ast.RangeStmt)
+			if !ok || rs.Value == nil {
+				return true
+			}
+			sel, ok := ast.Unparen(rs.X).(*ast.SelectorExpr)
+			if !ok || info.ObjectOf(sel.Sel) != types.Object(children) {
+				return true
+			}
+			vid, ok := rs.Value.(*ast.Ident)
+			if !ok {
+				return true
+			}
+			vobj := info.ObjectOf(vid)
+			ast.Inspect(rs.Body, func(y ast.Node) bool {
+				switch z := y.(type) {
+				case *ast.IfStmt:
+					// if v.Type() == K { return v }
+					be, ok := ast.Unparen(z.Cond).(*ast.BinaryExpr)
+					if ok && be.Op == token.EQL {
+						kindTest := false
+						for _, side := range []ast.Expr{be.X, be.Y} {
+							if tv, ok := info.Types[side]; ok && tv.Value != nil && types.Identical(tv.Type, enumT) {
+								kindTest = true
+							}
+						}
+						if kindTest && len(z.Body.List) > 0 {
+							if ret, ok := z.Body.List[len(z.Body.List)-1].(*ast.ReturnStmt); ok && len(ret.Results) >= 1 {
+								if rid, ok := ast.Unparen(ret.Results[0]).(*ast.Ident); ok && info.ObjectOf(rid) == vobj {
+									lookup = true
+								}
+							}
+						}
+					}
+				case *ast.CallExpr:
+					if Callee(info, z) == self {
+						rec = z
+					}
+				}
+				return true
+			})
+			return true
+		})
+		if !lookup {
+			return
+		}
+		key := "direct-child:" + c.P.DeclName(fd)
+		if rec == nil {
+			sc.Holds(key, c.P.Pos(fd.Pos()), "looks among the direct children only")
+		} else {
+			sc.Violation(key, c.P.Pos(rec.Pos()), "a lookup of the child of a kind descends into the children's own children: the Tags of one method are found as \"the URL's Tags\" and taken by its untagged sibling")
+		}
+	})
 }
